@@ -413,6 +413,7 @@ func (c *c09Run) step(s c09Step) {
 		}
 		c.node.release(c09KBlock)
 		c.quiesce()
+		c.sampleBusy()
 	case "tick":
 		// a poll triggered by the ticker alone: no new-transaction signal is given
 		if c.exited() {
@@ -423,12 +424,14 @@ func (c *c09Run) step(s c09Step) {
 		}
 		c.node.release(c09KBlock)
 		c.quiesce()
+		c.sampleBusy()
 	case "rel":
 		if s.K == c09KReceipt && c.in.Transport == "rpc" && c.closing {
 			return
 		}
 		if c.node.release(s.K) {
 			c.quiesce()
+			c.sampleBusy()
 		}
 	case "close":
 		c.doClose()
@@ -477,8 +480,17 @@ func (c *c09Run) doClose() {
 	c.quiesce()
 }
 
+// sampleBusy records whether check() is inside a node query at this quiescent point.
+func (c *c09Run) sampleBusy() {
+	c.rec.mu.Lock()
+	b := c.rec.actChk > 0
+	c.rec.mu.Unlock()
+	c.log("(ObsBusy " + coqBool(b) + ")")
+}
+
 func (c *c09Run) samplePending() {
 	c.quiesce()
+	c.sampleBusy()
 	var l []string
 	for _, ti := range c.client.PendingTxns() {
 		l = append(l, coqN(c.hid(common.HexToHash(ti.Hash))))
@@ -840,6 +852,19 @@ func c09Directed(tr string) []struct {
 			S("watch", 1, 0, 0, ""), S("rel", 0, 0, 0, c09KNonce), S("hold", 0, 0, 0, c09KNonce), S("mine", 1, 1, 0, ""),
 			S("block", 0, 1, 1, ""), S("tick", 0, 0, 0, ""), S("pend", 0, 0, 0, ""), S("tick", 0, 0, 0, ""), S("pend", 0, 0, 0, ""),
 			S("block", 0, 2, 1, ""), S("tick", 0, 0, 0, ""), S("pend", 0, 0, 0, "")),
+		// a MINED transaction whose receipt query fails inside the batch (JSON-RPC error object / no
+		// response for the element): the individual query answers the receipt -> receipt, never "cancelled"
+		mk("elem-error-mined", 0, S("send", 0, 0, 0, ""), S("send", 0, 1, 0, ""), S("watch", 1, 0, 0, ""), S("watch", 2, 0, 0, ""),
+			S("mine", 1, 1, 0, ""), S("mine", 2, 0, 0, ""), S("err", 1, 1, 0, ""), S("err", 2, 3, 0, ""), S("block", 0, 1, 2, ""),
+			S("poll", 0, 0, 0, ""), S("pend", 0, 0, 0, "")),
+		// ... and when the individual query fails too: no outcome in this round, the receipt later
+		mk("elem-error-mined-both-fail", 0, S("send", 0, 0, 0, ""), S("watch", 1, 0, 0, ""), S("watchraw", 1, 0, 0, ""), S("mine", 1, 1, 0, ""),
+			S("err", 1, 2, 0, ""), S("block", 0, 1, 1, ""), S("poll", 0, 0, 0, ""), S("pend", 0, 0, 0, ""), S("block", 0, 2, 1, ""),
+			S("poll", 0, 0, 0, ""), S("pend", 0, 0, 0, ""), S("err", 1, 0, 0, ""), S("block", 0, 3, 1, ""), S("poll", 0, 0, 0, ""), S("pend", 0, 0, 0, "")),
+		// a failed batch is retried at the next block although the confirmed nonce did not move
+		mk("batch-fails-then-next-block", 0, S("send", 0, 0, 0, ""), S("watch", 1, 0, 0, ""), S("mine", 1, 1, 0, ""), S("fail", 0, 1, 0, c09KBatch),
+			S("block", 0, 1, 1, ""), S("poll", 0, 0, 0, ""), S("pend", 0, 0, 0, ""), S("fail", 0, 0, 0, c09KBatch), S("block", 0, 2, 1, ""),
+			S("tick", 0, 0, 0, ""), S("pend", 0, 0, 0, "")),
 		mk("close-idle", 0, S("send", 0, 0, 0, ""), S("watch", 1, 0, 0, ""), S("watchraw", 1, 0, 0, ""), S("pend", 0, 0, 0, ""),
 			S("hold", 0, 1, 0, c09KBatch), S("mine", 1, 1, 0, ""), S("block", 0, 1, 1, ""), S("poll", 0, 0, 0, ""), S("close", 0, 0, 0, ""),
 			S("watch", 1, 0, 0, ""), S("rel", 0, 0, 0, c09KBatch)),
@@ -965,7 +990,7 @@ func c09Random(r *rand.Rand, tr string) c09In {
 		case x < 67:
 			add(c09St("unmine", 1+r.Intn(sent), 0, 0, ""))
 		case x < 73:
-			add(c09St("err", 1+r.Intn(sent), uint64(r.Intn(3)), 0, ""))
+			add(c09St("err", 1+r.Intn(sent), uint64(r.Intn(4)), 0, ""))
 		case x < 77:
 			add(c09St("fail", 0, uint64(r.Intn(2)), 0, []string{c09KBlock, c09KNonce, c09KBatch}[r.Intn(3)]))
 		case x < 85:
